@@ -247,6 +247,20 @@ def goals_c16(ctx, P, V=None):
     return g
 
 
+def real_digest_axioms(ex):
+    """the real weak hash on the windows of this instance: for windows of < 23 bytes no sum reaches 65521, so
+    digest = (sum (len-k) w_k) * 65536 + sum w_k exactly (used only to make counterexamples realisable)"""
+    ax = []
+    for args, t in ex.D_apps:
+        ln, ws = args[0], args[1:]
+        if len(ws) > 22:
+            raise Inconclusive("window too long for the exact small-window digest")
+        a = sum([z3.If(k < ln, w, 0) for k, w in enumerate(ws)])
+        b = sum([z3.If(k < ln, (ln - k) * w, 0) for k, w in enumerate(ws)])
+        ax.append(t == b * 65536 + a)
+    return ax
+
+
 def model_case(model, P, engine="sync"):
     basis = [model_int(model, z3.Select(P["B"], i)) for i in range(P["bl"])]
     source = [model_int(model, z3.Select(P["S"], i)) for i in range(P["sl"])]
@@ -320,9 +334,28 @@ def pipeline_obligations(ctx, R, prover, pid, bl, sl, bs, which):
                 ("greedy" if any("literal" in b or "identical" in b for b in bad.values()) else "header")
             return {"confirmed": True, "replay_path": R.save_replay(tag, case), "key": "%s/%s-delta/%s" % (pid, engine, kind),
                     "detail": "delta(basis=%s, source=%s, bs=%d): native %s" % (case["basis"], case["source"], bs, bad)}
+        # the model may rely on a weak-hash value the real checksum does not have: re-ask with the real digest
+        try:
+            st2, m2, _ = decide(ex.assumes + real_digest_axioms(ex), neg, prover.cap)
+        except Inconclusive:
+            st2 = "unknown"
+        if st2 == "sat":
+            case2 = model_case(m2, P, "async" if engine == "async" else "sync")
+            bad2, res2 = native_verdict(case2)
+            if bad2:
+                case2["observed"] = res2
+                kind = "roundtrip" if any("reconstruct" in b or "patch" in b or "panic" in b for b in bad2.values()) else \
+                    ("greedy" if any("literal" in b or "identical" in b for b in bad2.values()) else "header")
+                return {"confirmed": True, "replay_path": R.save_replay(tag, case2), "key": "%s/%s-delta/%s" % (pid, engine, kind),
+                        "detail": "delta(basis=%s, source=%s, bs=%d): native %s" % (case2["basis"], case2["source"], bs, bad2)}
+            case = case2
+        if st2 == "unsat":
+            return {"refined_holds": True,
+                    "detail": "holds for the real weak hash at this size (exact small-window digest), not for an arbitrary weak-hash function: "
+                              "the abstract counterexample needs a weak collision that windows of %d bytes cannot have" % bs}
         return {"confirmed": False,
-                "detail": "native delta satisfies the property on basis=%s source=%s bs=%d (model relies on the abstraction of a leaf or on a std model)"
-                          % (case["basis"], case["source"], bs)}
+                "detail": "native delta satisfies the property on basis=%s source=%s bs=%d (real-digest re-query: %s; the model relies on a "
+                          "weak-hash collision that does not exist at this size, or on a std model)" % (case["basis"], case["source"], bs, st2)}
 
     fns = ["Signature::generate", "BlockSignature::compute", "SignatureTable::from_signature", "SignatureTable::has_weak_match",
            "SignatureTable::find_match", "SignatureTable::is_empty", "<CopiaSync as Sync>::delta", "Delta::with_checksum",
